@@ -34,6 +34,7 @@ type Program struct {
 	Ghosts    map[string]*GhostDecl
 	imports   map[*types.Package]map[string]*types.Package
 	sentTypes map[string]bool
+	methodSigs map[string]*types.Signature
 }
 
 // Load loads the packages matching patterns from module directory dir with the
